@@ -11,7 +11,7 @@ theorem core_setFarmer {s3 s' : State} {a : Addr} {id : PoolId} {g : Farmer} {p1
     (hf : s'.farmers = AMap.set s3.farmers (a, id) g) (hp : getPool s3 id = some p1)
     (hdebt : ∀ r ∈ p1.rules, (amountOf g.debt r.denom : Int) ≤ (r.rps.raw * (g.locked : Int)) / precision) : Core s' := by
   have gp : ∀ i, getPool s' i = getPool s3 i := fun i => by unfold getPool; rw [hpools]
-  refine ⟨by rw [hh]; exact hc.hnn, poolsAll_same hc.wf hpools, ?_, ?_, ?_, ?_, ?_⟩
+  refine ⟨by rw [hh]; exact hc.hnn, poolsAll_same hc.wf hpools, ?_, ?_, ?_, ?_, ?_, ?_⟩
   · rw [hh]; exact poolsAll_same hc.time hpools
   · obtain ⟨q1, q2, q3⟩ := hc.queue
     refine ⟨?_, ?_, by rw [hq]; exact q3⟩
@@ -39,12 +39,14 @@ theorem core_setFarmer {s3 s' : State} {a : Addr} {id : PoolId} {g : Farmer} {p1
     · cases e; exact ⟨p1, hp⟩
     · rw [AMap.get?_set_other _ _ _ _ e] at hf2
       exact hc.fpool a2 i f hf2
+  · intro i p hp2 r hr; rw [gp] at hp2
+    exact (hc.ghost i p hp2 r hr).transfer (by unfold C06.active; rw [hq]; exact fun h => h) (by rw [hh]; exact fun h => h)
 
 theorem core_eraseFarmer {s3 s' : State} {a : Addr} {id : PoolId} (hc : Core s3)
     (hpools : s'.pools = s3.pools) (hq : s'.queue = s3.queue) (hh : s'.height = s3.height)
     (hf : s'.farmers = AMap.erase s3.farmers (a, id)) : Core s' := by
   have gp : ∀ i, getPool s' i = getPool s3 i := fun i => by unfold getPool; rw [hpools]
-  refine ⟨by rw [hh]; exact hc.hnn, poolsAll_same hc.wf hpools, ?_, ?_, ?_, ?_, ?_⟩
+  refine ⟨by rw [hh]; exact hc.hnn, poolsAll_same hc.wf hpools, ?_, ?_, ?_, ?_, ?_, ?_⟩
   · rw [hh]; exact poolsAll_same hc.time hpools
   · obtain ⟨q1, q2, q3⟩ := hc.queue
     refine ⟨?_, ?_, by rw [hq]; exact q3⟩
@@ -69,6 +71,8 @@ theorem core_eraseFarmer {s3 s' : State} {a : Addr} {id : PoolId} (hc : Core s3)
     · cases e; rw [get?_erase_self] at hf2; cases hf2
     · rw [get?_erase_other _ _ _ e] at hf2
       exact hc.fpool a2 i f hf2
+  · intro i p hp2 r hr; rw [gp] at hp2
+    exact (hc.ghost i p hp2 r hr).transfer (by unfold C06.active; rw [hq]; exact fun h => h) (by rw [hh]; exact fun h => h)
 
 theorem tdiv_prec_nonneg {x : Int} (h : 0 ≤ x) : x.tdiv precision = x / precision :=
   Int.tdiv_eq_ediv_of_nonneg h
@@ -169,7 +173,7 @@ theorem unstakePool_core {s s1 : State} {id : PoolId} {p p1 : Pool} {amt : Nat}
       getPool_set_self _ _ _ _ rfl
     have gother : ∀ id2, id ≠ id2 → getPool (setPool s id { p with locked := p.locked - amt }) id2 = getPool s id2 :=
       fun id2 e => getPool_set_other s _ id id2 _ rfl e
-    refine ⟨⟨hc.hnn, ?_, ?_, ?_, ?_, ?_, ?_⟩, gself, rfl, ?_⟩
+    refine ⟨⟨hc.hnn, ?_, ?_, ?_, ?_, ?_, ?_, ?_⟩, gself, rfl, ?_⟩
     · exact poolsAll_set hc.wf rfl ⟨hw.rulesNe, hw.nodup, hw.rpbPos, hw.totPos, hw.rpsNN, hw.user⟩
     · refine poolsAll_set hc.time rfl ⟨ht.lastLe, ?_, ht.fresh⟩
       intro hpos
@@ -203,6 +207,11 @@ theorem unstakePool_core {s s1 : State} {id : PoolId} {p p1 : Pool} {amt : Nat}
       by_cases e : id = id2
       · subst e; exact ⟨_, gself⟩
       · exact ⟨p2, by rw [gother id2 e]; exact hp2⟩
+    · intro id2 p2 hp2 r hr
+      by_cases e : id = id2
+      · subst e; rw [gself] at hp2; cases hp2
+        exact (hc.ghost id p hp r hr).transfer (fun h => h) (fun h => h)
+      · rw [gother id2 e] at hp2; exact (hc.ghost id2 p2 hp2 r hr).transfer (fun h => h) (fun h => h)
     · intro d
       have he := expected_set (s' := setPool s id { p with locked := p.locked - amt }) hp rfl d
       unfold gap
